@@ -21,7 +21,7 @@ RULE = (
     "Hypothesis-generated cases per class (5 classes): shape chosen so that byte sizes are mostly odd (width*depth*itemsize not a multiple of "
     "8; heavy-hitter key area not a multiple of 4), an owner created with shared_memory=True, an ordinary in-memory twin, and up to 2 views "
     "attached through attach_existing_shm on a fresh object or helpers.attach_shared_memory(type, owner.args, owner.shm.name); a generated "
-    "sequence of steps (add / update(list|dict) / add_ngram / merge of another sketch / attach a view / drop a view) each routed to the owner "
+    "sequence of steps (add / update(list|dict) / add_ngram / merge of another sketch (ordinary, or itself in shared memory and reached through an attached view, as parallel_merging does) / attach a view / drop a view) each routed to the owner "
     "or to any view and mirrored on the twin (same planted draws for log types); finally the handles are dropped in a generated order (owner "
     "last, or owner first while views still exist). Oracle after every step: owner, every view and the twin agree on tables, n_added/n_records "
     "and on queries asked through EVERY handle (count-min: all universe keys; heavy hitters: hh[key], query(inf,0), query(inf,1), query(3,None); "
@@ -67,6 +67,7 @@ def cases(draw):
             s["k"], s["n"] = draw(key), draw(st.integers(1, 5))
         elif k == "merge_in":
             s["other"] = [[draw(key), draw(val)] for _ in range(draw(st.integers(0, 3)))]
+            s["other_shm"] = draw(st.booleans())  # the merged-in sketch itself lives in shared memory and is reached through a view
         elif k == "attach":
             s["how"] = draw(st.sampled_from(["method", "helper"]))
         if log:
@@ -165,13 +166,25 @@ def run_case(case, real_sleep=False):
                         raise Violation(f"{kind} {cfg}: dropping an attached view changed the owner's contents", "view-drop-changed-owner")
             elif op == "merge_in":
                 h = handles[s["via"] % len(handles)]
-                other = sut(make_sketch, cfg)
+                if s.get("other_shm"):
+                    other_owner = sut(make_sketch, cfg, True)
+                    other_name = other_owner.shm.name
+                    other = attach(cfg, other_owner, "helper")
+                else:
+                    other_owner = other_name = None
+                    other = sut(make_sketch, cfg)
                 for k, v in s["other"]:
                     if kind in ("log8", "log16"):
                         plant(other, [0.0])
                     sut(other.add, k, v)
                 sut(h.merge, other)
                 sut(twin.merge, other)
+                other = None
+                if other_owner is not None:
+                    other_owner = None
+                    if os.path.exists(shm_path(other_name)):
+                        raise Violation(f"{kind} {cfg}: segment {other_name} of a merged-in sketch still exists after its view and owner were dropped", "segment-survives-owner")
+                    stats["shm_other"] = stats.get("shm_other", 0) + 1
                 if h is not owner:
                     stats["ops_via_view"] += 1
             else:
@@ -238,6 +251,8 @@ def _shard(arg):
             cl.append("op_through_view")
         if case["owner_first"] and stats["views"]:
             cl.append("owner_dropped_first")
+        if stats.get("shm_other"):
+            cl.append("merged_in_sketch_in_shared_memory")
         rec.case(case, stats["views"] >= 1 and stats["ops_via_view"] >= 1 and (ua or case["cfg"]["kind"] == "hll"), cl)
 
     common.run_given(test, common.derive_seed(seed, "C16", shard), n_examples, holder, rec)
